@@ -9,6 +9,12 @@ import (
 	"strings"
 	"time"
 
+	collogpb "go.opentelemetry.io/proto/otlp/collector/logs/v1"
+	commonpb "go.opentelemetry.io/proto/otlp/common/v1"
+	logpb "go.opentelemetry.io/proto/otlp/logs/v1"
+	respb "go.opentelemetry.io/proto/otlp/resource/v1"
+	"google.golang.org/protobuf/proto"
+
 	"verif/harness/kernel"
 )
 
@@ -172,6 +178,51 @@ func c19Ops() []c19Op {
 		{"savedquery-delete", func(w *kernel.Worker, name string) (string, error) {
 			return call(w, "query", "GET", "/api/usersavedqueries/deleteone/"+rawSeg(name), "", nil)
 		}},
+		{"hec-index-name", func(w *kernel.Worker, name string) (string, error) {
+			b, err := call(w, "ingest", "POST", "/services/collector/event", `{"index":`+jq(name)+`,"event":{"f":1}}`, js)
+			if err != nil {
+				return b, err
+			}
+			if err := w.Call("rotate", nil, nil); err != nil {
+				return b, err
+			}
+			return b, nil
+		}},
+		{"es-doc-index-name", func(w *kernel.Worker, name string) (string, error) {
+			b, err := call(w, "ingest", "POST", "/elastic/"+rawSeg(name)+"/_doc", fmt.Sprintf(`{"timestamp":%d,"f":1}`, time.Now().UnixMilli()), js)
+			if err != nil {
+				return b, err
+			}
+			if err := w.Call("rotate", nil, nil); err != nil {
+				return b, err
+			}
+			return b, nil
+		}},
+		{"otlp-logs-index-attribute", func(w *kernel.Worker, name string) (string, error) {
+			req := &collogpb.ExportLogsServiceRequest{ResourceLogs: []*logpb.ResourceLogs{{
+				Resource:  &respb.Resource{Attributes: []*commonpb.KeyValue{{Key: "siglensIndexName", Value: anyValue(name)}}},
+				ScopeLogs: []*logpb.ScopeLogs{{LogRecords: []*logpb.LogRecord{{TimeUnixNano: uint64(time.Now().UnixNano()), Body: anyValue("b")}}}}}}}
+			pb, err := proto.Marshal(req)
+			if err != nil {
+				return "", nil
+			}
+			var r httpRes
+			if err := w.Call("http", map[string]interface{}{"server": "ingest", "method": "POST", "path": "/otlp/v1/logs", "body_b64": b64(pb), "headers": map[string]string{"Content-Type": "application/x-protobuf"}}, &r); err != nil {
+				return "", err
+			}
+			if err := w.Call("rotate", nil, nil); err != nil {
+				return r.Body, err
+			}
+			return r.Body, nil
+		}},
+		{"alias-remove-of-named-index", func(w *kernel.Worker, name string) (string, error) {
+			body := fmt.Sprintf(`{"actions":[{"remove":{"index":%s,"alias":"c19al"}}]}`, jq(name))
+			return call(w, "query", "POST", "/elastic/_aliases", body, js)
+		}},
+		{"alias-remove", func(w *kernel.Worker, name string) (string, error) {
+			body := fmt.Sprintf(`{"actions":[{"remove":{"index":"c19base","alias":%s}}]}`, jq(name))
+			return call(w, "query", "POST", "/elastic/_aliases", body, js)
+		}},
 		{"metric-name", func(w *kernel.Worker, name string) (string, error) {
 			body := fmt.Sprintf(`[{"metric":%s,"tags":{"k":%s},"timestamp":%d,"value":1}]`, jq(name), jq(name), time.Now().Unix())
 			b, err := call(w, "ingest", "POST", "/otsdb/api/put", body, js)
@@ -196,7 +247,7 @@ func c19Run(w *kernel.Worker, j *c19Job, rep *kernel.Report) (*Fail, error) {
 		"outside/secret.csv":  "k,v\n" + c19Secret + ",1\n",
 		"outside/secret.json": `{"name":"` + c19Secret + `"}`,
 		"outside/victim.csv":  "k,v\nvictim,1\n",
-		"outside/victim.json": `{"name":"victim"}`,
+		"outside/victim.json": `{"c19al":true,"victim":true}`, // shaped like the alias store's own files (map of names to true)
 		"outside/victim":      "victim\n",
 	}
 	reset := func() error {
@@ -286,7 +337,7 @@ func c19Run(w *kernel.Worker, j *c19Job, rep *kernel.Report) (*Fail, error) {
 func C19() int {
 	rep := kernel.NewReport("C19", "exploration")
 	rep.Rule = "all names of ≤ n atoms over {a, .., ., /, \\, %2e%2e, %2f, ../, x.csv, outside, ~, victim} plus targeted escapes (1–6 levels of ../ towards a sentinel directory, " +
-		"encoded and backslash variants, absolute paths, 300 characters, 40 levels) × 20 operations that derive a path from request data (lookup upload/get/delete, inputlookup, bulk _index + rotation, " +
+		"encoded and backslash variants, absolute paths, 300 characters, 40 levels) × 25 operations that derive a path from request data (lookup upload/get/delete, inputlookup, index name of bulk / single-document / HEC / OTLP-logs ingest + rotation, alias removal, " +
 		"PUT/DELETE index, search index name, alias add, dashboard create/get/update/delete, folder create/get, saved query save/get/delete, metric name + tag value), sent over HTTP to the booted " +
 		"server so that route parameters pass through the real routers. After every operation the tree outside data/ and logs/ must be unchanged and no response may contain the sentinel's content. " +
 		"non-trivial = (operation, name) where the name contains a separator, dot-dot, ~ or an encoding atom"
